@@ -14,12 +14,25 @@ type ProcCore struct {
 	Resolve func(proc, cb, name string, cur any) any
 	// PropsOK: PostProcessAfterInstantiation returns true.
 	PropsOK bool
+	// Act performs what else the processor does inside (cb, component name): look another
+	// component up through the container. Its error is the callback's error.
+	Act func(proc, cb, name string) error
+}
+
+func (p *ProcCore) act(kind, name string) error {
+	if p.Act != nil && !p.H.C.Parallel {
+		return p.Act(p.H.ID, kind, name)
+	}
+	return nil
 }
 
 func (p *ProcCore) Naming() string { return p.H.Alias }
 
 func (p *ProcCore) cb(kind, name string, cur any) (any, error) {
 	if err := p.H.C.Callback(kind, p.H.ID+"@"+name, cur); err != nil {
+		return nil, err
+	}
+	if err := p.act(kind, name); err != nil {
 		return nil, err
 	}
 	if p.Resolve != nil {
@@ -57,10 +70,16 @@ func (p *InstCore) PostProcessAfterInstantiation(component any, componentName st
 	if err := p.H.C.Callback("afterInst", p.H.ID+"@"+componentName, component); err != nil {
 		return false, err
 	}
+	if err := p.act("afterInst", componentName); err != nil {
+		return false, err
+	}
 	return p.PropsOK, nil
 }
 func (p *InstCore) PostProcessProperties(properties []*component_definition.Property, component any, componentName string) ([]*component_definition.Property, error) {
 	if err := p.H.C.Callback("props", p.H.ID+"@"+componentName, component); err != nil {
+		return nil, err
+	}
+	if err := p.act("props", componentName); err != nil {
 		return nil, err
 	}
 	return nil, nil
